@@ -11,7 +11,7 @@ func init() {
 		technique: "CFG ordering through the fail-fast chains of doStop, fan-out/join rule on freeChildren (every errgroup.Go joined by Wait before success), lockset on the actor tree, paired index-update rule, who-may-call on node removal",
 		explanation: "Decides: (0) a local Shutdown returns success only after taking the stop lock (it waits for a stop in flight instead of returning early); (1) in doStop watchees are released, then children freed, then PostStop runs, then watchers are notified; PostStop is reached only if freeing the children succeeded; (2) freeChildren starts one stop task per element of tree.children(pid), each task shuts the child down when it is running or suspended, and every path to a successful return joins all tasks with Wait first (children complete before the parent's PostStop); a join error is returned; (3) every read/write of the tree indexes (pids, names, rootNode) and of every node's relation maps happens under tree.mu (write lock for mutations); *Locked helpers are only called with the lock held; (4) index pairing: every insertion into pids is paired with an insertion into names and one counter increment in the same block, every removal from pids with the name removal and one decrement; removal proceeds children before parents (post-order); (5) nodes are deleted only from the listed sites (death watch on Terminated, stop directive after a successful Shutdown, system shutdown, spawn rollback).",
 		assumptions: []string{"concurrent overlapping stops/spawns of the same subtree", "'no actor of the subtree resolvable when Stop returns' depends on the asynchronous death watch removing nodes"},
-		minObl:     40,
+		minObl:     47,
 		run:        runC09,
 	})
 }
